@@ -85,6 +85,8 @@ type Machine struct {
 	// NST validator pubkeys deposited per actor (so that withdrawals can name one)
 	NstKeys map[int][][]byte
 	nstSeq  int
+	// native bank balance of every actor before the current step
+	nativeBefore []*big.Int
 }
 
 const keyPoolExtra = 6
@@ -152,6 +154,10 @@ func (m *Machine) label(l string) { m.Labels[l]++ }
 
 // Step runs one action with all invariants around it.
 func (m *Machine) Step(a Action) error {
+	m.nativeBefore = m.nativeBefore[:0]
+	for i := 0; i < m.NumActors(); i++ {
+		m.nativeBefore = append(m.nativeBefore, NativeBalance(m.C, m.ActorKey(i).Acc()))
+	}
 	for _, inv := range m.Inv {
 		inv.Before(m, &a)
 	}
@@ -173,6 +179,11 @@ func (m *Machine) Step(a Action) error {
 		if err := inv.After(m, &a, o); err != nil {
 			return err
 		}
+	}
+	if m.C.ValSetErr != nil {
+		// the consensus engine would have rejected this update list (C06/C11 judge that); no
+		// other property can say anything about what follows
+		return &sim.Halt{Phase: "EndBlock(valset)", Height: m.C.Height, Value: "validator set update rejected (out of scope here): " + m.C.ValSetErr.Error()}
 	}
 	return nil
 }
